@@ -121,6 +121,29 @@ def check_case(ctx, cfg, seed):
                          'with model-parallel degree > 1', case, 'neox-resume-mp>1')
             else:
                 ctx.fail(f'resumed run differs from the reference (rank {r}, layer {l}, relerr {e:.2e})', case, 'neox-resume')
+    # bookkeeping correspondence with the Lean checkpoint model (KV.NeoxL.merged/partition/restores)
+    inv = {}
+    for r in range(W_):
+        for n_, iw in zip(rr.res[r]['names'], rr.res[r]['inv']):
+            inv[n_] = iw
+    line = (f'neoxckpt world={W_} dir={int(cfg.ckpt_dir is not None)} layers=' + ';'.join(','.join(rr.res[r]['names']) for r in range(W_))
+            + ' inv=' + ','.join(f'{k}={v}' for k, v in inv.items())
+            + ' fw=' + ';'.join(','.join(f'{n_}={f_}' for n_, f_ in zip(rr.res[r]['names'], rr.res[r]['fw'])) for r in range(W_)))
+    mo = ctx.model.ask([line])[0]
+    if mo is not None:
+        rec0 = rr.res[0]['ops'][ci]
+        keys = sorted(rec0['state_layers']) if rec0.get('state_layers') is not None else (sorted(os.listdir(cfg.ckpt_dir)) if cfg.ckpt_dir and os.path.isdir(cfg.ckpt_dir) else [])
+        impl = 'merged=' + ','.join(keys)
+        for r in range(W_):
+            rec = rr.res[r]['ops'][ci]
+            part = [n_ for n_, iw in zip(rr.res[r]['names'], rr.res[r]['inv']) if iw == r]
+            if cfg.ops[ci] in ('l1', 'l0'):
+                rest = [n_ for n_, h in zip(rr.res[r]['names'], rec['held']) if isinstance(h[0], torch.Tensor)]
+            else:
+                rest = [n_ for n_, f_ in zip(rr.res[r]['names'], rr.res[r]['fw']) if f_ == r]
+            impl += f' r{r}:part={",".join(part)}:restores={",".join(rest)}'
+        mo_cmp = mo.split(' save=')[0]
+        ctx.compare('neox-ckpt-bookkeeping', case, mo_cmp, impl)
     ctx.case(str(case), nontrivial=cfg.world >= 2, sample=case if cfg.world <= 4 else None)
     ctx.count(f'mp{cfg.mp}')
     ctx.count('dir' if cfg.ckpt_dir else 'memory')
